@@ -18,7 +18,7 @@ MANIFEST = dict(
           "BOUNDED (labelled, not counted as proved): ConvexPolygon.length/area for other orderings / larger n and ConvexPolyhedron.length/area/volume on catalogue polygons (3-8 vertices) and polyhedra (tetrahedra, boxes, prisms, pyramids, octahedra, hulls) "
           "in oblique poses under vertex permutations, face permutations, face rotations and face orientations, against exact rational cross-product / determinant formulas, relative tolerance 1e-9; volume(x) == x.volume()."),
     note=("The polygon proofs assume the invariant the constructor establishes (C09: proved for n <= 5, bounded above); the polyhedron sums are proved on tetrahedra only (one orientation pattern on every change, five thorough) and bounded beyond. Shape bound n <= 6 (8). A1, A5."),
-    technique="contract-based deductive verification of the triangle / pyramid / segment measures (z3 with ghost scalars) + labelled bounded stand-in with exact rational reference for polygon and polyhedron sums",
+    technique="contract-based deductive verification of the segment, triangle, pyramid, polygon (n <= 6) and tetrahedron measures (z3 with ghost scalars and proof scripts) + labelled bounded stand-in with exact rational reference for larger polygons and other polyhedra",
     design_ref="DESIGN.md section 9 (C06)",
 )
 EXPLANATION = "proved: segment length, triangle area (Heron = cross product), pyramid height/volume, volume() dispatch; bounded: polygon and polyhedron sums under all orderings"
